@@ -107,6 +107,14 @@ UNITS['U03'] = dict(
                  'usize is 64 bits (global size_of usize == 8)'],
     not_covered=['PackedStrings::from_iterator / PackedBytes::from_iterator (iterator parameters)', 'IndexedPackedStrings::iter (closure over map)', 'DictLookup::execute decode loop'])
 
+UNITS['U04v'] = dict(
+    kind='verus', tpl='contracts/U04v_integers.vx',
+    title='integers.rs: IntegerColumn::encode<T>, delta transform of new_boxed (slice); delta_decode.rs: DeltaDecode::execute; delta round-trip lemma',
+    assumptions=['R5: narrow storage types abstracted to trait Narrow { from, to_i64 } (num::NumCast / ToPrimitive on u8/u16/u32)',
+                 'R11: `for curr in &mut values[1..]` desugared to an index loop with `let curr = &mut values[k]`; R6 for DeltaDecode::execute',
+                 'delta transform requires consecutive differences to fit i64 - what IntColBuffer.allow_delta_encode is meant to guarantee'],
+    not_covered=['IntegerColumn::create_col (codec op lists; Column construction)', 'free fn column::decode (stack machine over dyn Data) - see U04d'])
+
 UNITS['U09k'] = dict(
     kind='kani', crate='kani/U09', needs_lock=True,
     title='aggregate.rs / merge_aggregate.rs: SumI64, Count, MaxI64, MinI64 accumulate/combine and Combinable<i64>::combine (complete)',
@@ -200,6 +208,14 @@ UNITS['U14k'] = dict(
                  'format! on error paths stubbed (message text irrelevant)'],
     not_covered=['FileBlobWriter (file system)', 'Cap\'n Proto encode/decode of segments and catalogue (A-capnp)'])
 
+UNITS['U04k'] = dict(
+    kind='kani', crate='kani/U04',
+    title='integers.rs: IntegerColumn::new_boxed interval computation and width/offset choice (slice) for every (min, max) (complete)',
+    harnesses=[dict(name='proofs::width_offset_choice', unwind=6, clause='chosen width/offset holds [min - offset, max - offset]; no overflow computing the interval', fn='IntegerColumn::new_boxed[slice]'),
+               dict(name='proofs::vx_canary', expect_fail=True)],
+    assumptions=['shims: Column::new / IntegerColumn::create_col / DataSection record the choice instead of building a column'],
+    not_covered=['lz4_or_pco_encode (A-lz4, A-pco)'])
+
 PROPS = {
     'C08': dict(level='proof', units=['U18k'],
                 level_text='complete Kani proofs of the WAL cursor primitives and of the replay-or-delete classification at recovery (narrow: primitives, not the protocol)',
@@ -236,7 +252,7 @@ PROPS = {
                 level_note='planner choice of checked vs unchecked node is not covered',
                 technique='contract-based deductive verification (Kani complete harnesses) of the real operator file',
                 assumptions=[], not_covered=[]),
-    'C01': dict(level='proof', units=['U01', 'U02', 'U03'],
+    'C01': dict(level='proof', units=['U01', 'U02', 'U03', 'U04k', 'U04v'],
                 level_text='Verus proofs (all inputs, all iterations) of contracts on the real kernels extracted from /repo each run',
                 level_note='kernel contracts are proved; planner/executor glue, pco/lz4, CSV loader are named as unverified in evidence',
                 technique='contract-based deductive verification (Verus) of mechanically extracted functions',
